@@ -51,7 +51,7 @@ Definition avg_close (a : Q) (am ae : Z) : bool :=
   Qle_bool (Qabs (a - dyadic am ae) * two30)%Q (Qabs a + 1)%Q.
 
 Definition is_done (r : res) : bool := match r with RDone => true | _ => false end.
-Definition is_admit (r : res) : bool := match r with RAdmit => true | _ => false end.
+Definition is_grant (r : res) : bool := match r with RAdmit => true | _ => false end.
 
 (* the model reproduces what the implementation did; a near-tie decision is
    skipped and the model follows the implementation's verdict from there *)
@@ -78,7 +78,7 @@ Fixpoint agree_loop (s : state) (l : list (op * oobs)) : bool :=
     else
       let '(s', r) := step s o in
       match ob with
-      | OA shed _ _ _ _ _ => negb shed && is_admit r
+      | OA shed _ _ _ _ _ => negb shed && is_grant r
       | OR done _ _ _ => eqb done (is_done r)
       end && agree_loop s' l'
   end.
@@ -96,9 +96,9 @@ Definition agrees (c : case) : bool :=
 
 Record acc := mkAcc
   { aidx : Z;                (* index of the next operation *)
-    aadm : list (Z * Z);     (* admitted: (id, start) *)
+    aadm : list (Z * Z);     (* granted: (id, start) *)
     apass : list (Z * Z);    (* completed passes: (grid index of the time, latency ms) *)
-    afl : Z;                 (* #admitted - #resolutions *)
+    afl : Z;                 (* #granted - #resolutions *)
     aovers : list Z;         (* times of the Allows whose CPU reading was >= threshold *)
     ashed : bool;            (* an Allow was shed before *)
     aavg : Q;                (* avgFlying observed after the previous operation *)
